@@ -80,6 +80,14 @@ CLAIMED = {
         "entries with sampled cut sets; each streamed value is compared with an independent Python computation and the in-memory path.",
         "Holds on the explored region; for the listed n every chunking is covered. Streams are built from in-memory tables split at the cut positions (file-level chunking is C01).",
         "exhaustive enumeration of chunkings + Hypothesis sampling, differential/metamorphic oracle (streamed == in-memory == Python model)"),
+    "C12": (
+        "Exhaustive over every sequence of distinct contig groups drawn from the genome's names, one unknown and one ignored name (326 "
+        "sequences for 3 contigs, 1957 for 4) x four chunkings (none, between groups, inside groups, every entry) x seven consumers "
+        "(iter_chromosomes, pileup, mask sum, compute, get_track, MultiStream, forbes/jaccard), plus Hypothesis genomes where the ignored "
+        "contig sits anywhere in the listing. A decision-table oracle says for each sequence whether evaluation must complete (with each "
+        "contig receiving exactly its entries) or must raise; the entries seen after a completed evaluation must equal the non-ignored input.",
+        "Holds on the explored region; the group-sequence core is complete for the stated genome sizes. Entries of one contig are contiguous (the property's precondition).",
+        "exhaustive enumeration of group orders + Hypothesis sampling, decision-table oracle with conservation invariant"),
     "C13": (
         "Exhaustive over every list of up to 2 rows of length 0..4 (3 rows of length 0..3) on a two-letter sub-alphabet with every window 1..5 "
         "for k-mers (bit-packed and generic paths), minimizers (every k <= w), match_string, motif scores and k-mer counts; Hypothesis for five "
